@@ -33,6 +33,8 @@ CATALOG = {
     "rpA":   retry(2, a=[cE("E2")]),                     # aborts on E2
     "rpAR":  retry(2, h=[cR("R1")], a=[cR("R1")]),       # abort condition overlaps the handled result
     "rpL":   retry(1, rlf=True),
+    "rpA2":  retry(2, a=[cE("E1"), cE("E2")]),           # two abort errors in one registration
+    "rpH2":  retry(1, h=[cE("E1"), cE("E2")]),           # two handled errors in one registration (E3 etc. unhandled)
     "rpU":   retry(-1, a=[cE("E2")]),                    # unlimited
     "rp3":   retry(3),
     "rpD":   retry(3, dly=2, maxd=3),                    # max duration 3 units with a 2 unit delay
@@ -49,6 +51,10 @@ CATALOG = {
     "fbH":   fb(h=[cE("E1")]),
     "fbX":   fb(h=[cE("ErrExceeded"), cR("R1")]),
     "fbO":   fb(h=[cE("ErrOpen")]),
+    "fbHE":  fb(fr="R0", fe="EFB", h=[cE("E1")]),        # its own output is an error it does not handle: verdict success
+    "fbRR":  fb(fr="R1", h=[cR("R1"), cE("E1")]),        # its own output is a result it handles: verdict failure
+    "fbZ":   fb(h=[cE("E1"), cR("R0")]),                 # handled zero result next to a narrowed error condition
+    "cbX":   cb("cbX", BR1, h=[cE("ErrExceeded")]),       # a breaker that only counts exhausted retries
     "cK":    cache("cK"),
     "cIf":   cache("cIf", ifc=[cIf("p1")]),
     "cIfE":  cache("cIfE", ifc=[cE("E1")]),              # negative caching: stores the (zero) result of E1 failures
